@@ -314,17 +314,32 @@ func (k *Kernel) mainLoop(ctx context.Context, s *kState, wd *gwatchdog.Watchdog
 		)
 	}()
 
-	// The voting view loaded from the stores may already hold enough precommits
+	// The views loaded from the stores may already hold enough precommits
 	// to commit the height or to leave the round
 	// (the process may have stopped right after storing them).
-	// No further message is guaranteed to trigger that check,
-	// so run it once before serving requests.
-	if len(s.Voting.PrecommitProofs) > 0 {
-		if err := k.checkVotingPrecommitViewShift(ctx, s); err != nil {
+	// No further message is guaranteed to trigger those checks,
+	// so run them before serving requests, until the views stop moving:
+	// leaving a round can make the next round, which may be just as complete, the voting round.
+	for {
+		h, r := s.Voting.Height, s.Voting.Round
+
+		var err error
+		if len(s.Voting.PrecommitProofs) > 0 {
+			err = k.checkVotingPrecommitViewShift(ctx, s)
+		}
+		if err == nil && s.Voting.Height == h && s.Voting.Round == r && len(s.NextRound.PrecommitProofs) > 0 {
+			err = k.checkNextRoundPrecommitViewShift(ctx, s)
+		}
+		if err != nil {
 			k.log.Warn(
 				"Error while checking view shift for precommits loaded at startup; kernel may be in bad state",
 				"err", err,
 			)
+			break
+		}
+
+		if s.Voting.Height == h && s.Voting.Round == r {
+			break
 		}
 	}
 
